@@ -8,14 +8,21 @@ open IsoMdl.Driver
 
 structure DState where
   world : Option IsoMdl.Session.World := none
+  saved : Option IsoMdl.Session.World := none
 
-def stateless : List (List String → Option String) := [ageOp, ivOp, c13Op]
+def stateless : List (List String → Option String) := [ageOp, ivOp, c13Op, c06Op]
 
 def step (st : DState) (line : String) : DState × String :=
   let toks := (line.trimAscii.toString.splitOn " ").filter (· ≠ "")
   match stateless.findSome? (fun h => h toks) with
   | some out => (st, out)
   | none =>
+    if toks == ["sess.save"] then ({ st with saved := st.world }, "saved")
+    else if toks == ["sess.load"] then
+      match st.saved with
+      | some w => ({ st with world := some w }, summary w)
+      | none => (st, "bad-op")
+    else
     match sessOp st.world toks with
     | some (w, out) => ({ st with world := w }, out)
     | none => (st, "bad-op")
